@@ -372,7 +372,7 @@ META = {
                   'with a symmetric equality and a consistent hash; builtin hash() of strings/tuples is an arbitrary function '
                   '(equal arguments give equal results, nothing else). Excluded as the property says: the 1:n == n shortcut of '
                   'Range / RangeIndex. Unverified and named: __contains__, the ordering methods of the literals, '
-                  'LokiStringifyMapper (which produces str(x)).',
+                  'LokiStringifyMapper (which produces str(x)). TypedSymbol / MetaSymbol instances carry an arbitrary case_sensitive flag (it is an init-arg of the real classes).',
     'trusted_base': ['pyvc engine', 'CPython comparison protocol (executed, not modelled)', 'content model of node instances',
                      'pymbolic/primitives.py as installed in /venv (read on every run)'],
     'assumptions': ['config["case-sensitive"] is False (the default)', 'ASCII lower-casing'],
